@@ -45,6 +45,21 @@ CLAIMED = {
    note="Non-ASCII text is outside the model (only required to be rejected). Python int() on digit strings is modelled as decimal evaluation; CPython's digit-count limit is not modelled. No axioms.",
    technique="Coq proofs about a step-for-step parser model + exhaustive small-alphabet correspondence",
    design="6 C17"),
+ "C05": dict(
+   text="Proof of the validator's meaning + exhaustive exploration. The compiler's search is not modelled; every returned sequence is validated by compile_ok. Proved for every N: the string-level nested-commutator evaluation (documented orientation) decides the matrix-level nested commutator — a non-zero multiple of M(result) or the zero matrix (C05_nested_eval_matrix), hence compile_ok = true implies non-empty, over the universal set, non-zero and proportional to the target (C05_validator_sound). Per run: compile_target on all 4^N-1 targets and every k for N<=4 (N<=5 thorough), sampled up to N=7 (8).",
+   note="Universal set membership uses Model/Compiler.v's universal (tied to construct_universal_set in C07). No axioms.",
+   technique="Coq-verified validator (string-level evaluation = matrix-level commutator) over exhaustive target enumeration",
+   design="6 C05"),
+ "C06": dict(
+   text="Proof (existence / impossibility) + exhaustive exploration. Proved for every n: each member of the commutator closure is the nested commutator of a non-empty sequence of generators (C06_nested_exists, from the orbit lemma), so a correct compiler can be total exactly on the closure; for every odd k (3<=k<N) and EVERY N the target X_0X_1 admits no valid sequence (C06_refuted_odd_k, quadratic-form obstruction). Per run: outcome of compile_target for all targets N<=4 (<=5 thorough) and samples above, failing targets matched against the committed exact target sets per (N,k,raise site).",
+   note="Termination is observed by a per-target watchdog, not proved (runtime behaviour the model cannot exhibit): partial. Known findings: 17 (N,k,site) entries with exact target sets + 4 site-level entries for N>=6. No axioms.",
+   technique="Coq existence/impossibility theorems + exhaustive outcome enumeration against a recorded known-finding table",
+   design="6 C06"),
+ "C07": dict(
+   text="Proof + bounded computation + exploration. For all N,k: the model of construct_universal_set has 2N+1 strings of length N (C07_size); distinct for N<=12 (computed, bound in the statement); does NOT generate su(2^N) for any odd k and any N (C07_refuted_odd_k); generates all 4^N-1 strings for even k, N<=6 (vm_compute with the verified closure). Per run: construct_universal_set vs model for all k, N<=16 incl. the ValueError guard; closure size N<=6 (8 thorough); the classifier's name N<=10 (14).",
+   note="Even k for N>6 is explored, not proved. Known finding: odd k. No axioms.",
+   technique="Coq proofs (size, quadratic-form refutation) + kernel computation over the verified closure + exact set comparison",
+   design="6 C07"),
  "C04": dict(
    text="Proof: Coq theorems C04_product/commute/adjoint/conj/reject hold for every n and every pair of strings, about a bit-level model of PauliString.sign/commutes_with/multiply/adjoint_map/complex_conj and the Kronecker-product matrices over Z[i]. The model is tied to /repo on every run by a correspondence run: all 16^n pairs n<=3 (n<=4 thorough) plus random pairs up to n=64 and all length mismatches, implementation vs extracted model, and numpy matrices multiplied out for n<=3.",
    note="Trusted: Coq kernel, extraction (ExtrOcamlBasic), OCaml driver, Python harness; numpy kron/@ taken as the matrices. No axioms (Print Assumptions: closed).",
